@@ -60,6 +60,10 @@ func runFreeRace(id, tier string) {
 // c20FreeRun: the C20 scenario with race-free callbacks (atomics only) and real goroutines
 func c20FreeRun(h c20Harness) {
 	var version, builds int64
+	watching := h.usesWatch()
+	if watching {
+		c20WriteWatched(0)
+	}
 	plugin := api.Plugin{Name: "verif", Setup: func(b api.PluginBuild) {
 		b.OnStart(func() (api.OnStartResult, error) {
 			atomic.AddInt64(&builds, 1)
@@ -83,7 +87,11 @@ func c20FreeRun(h c20Harness) {
 			if name == "entry" {
 				src = "import {dep} from 'virtual:dep'; import {dep2} from 'virtual:dep2'; console.log(dep, dep2);" + src
 			}
-			return api.OnLoadResult{Contents: &src, ResolveDir: "/"}, nil
+			res := api.OnLoadResult{Contents: &src, ResolveDir: "/"}
+			if watching {
+				res.WatchFiles = []string{c20WatchFile}
+			}
+			return res, nil
 		})
 		b.OnEnd(func(r *api.BuildResult) (api.OnEndResult, error) {
 			_ = len(r.OutputFiles) + len(r.Errors)
@@ -113,7 +121,12 @@ func c20FreeRun(h c20Harness) {
 				case "dispose":
 					ctx.Dispose()
 				case "edit":
-					atomic.AddInt64(&version, 1)
+					v := atomic.AddInt64(&version, 1)
+					if watching {
+						c20WriteWatched(int(v))
+					}
+				case "watch":
+					ctx.Watch(api.WatchOptions{})
 				}
 			}
 		}()
